@@ -1369,14 +1369,15 @@ func stressShared(seed int64, scale int) int {
 	hpEx := failsafe.NewExecutor[int](hpShared)
 	for round := 0; round < 10*scale; round++ {
 		var started atomic.Int32
-		var winner atomic.Value
+		var attemptExecs [4]atomic.Value // by attempt number: under load the second hedge may start before the first has returned
 		val, err := hpEx.GetWithExecution(func(e failsafe.Execution[int]) (int, error) {
-			if started.Add(1) == 1 {
+			k := started.Add(1)
+			if k == 1 {
 				<-e.Canceled() // the first attempt loses
 				return 0, errX
 			}
-			winner.Store(e)
-			return 42, nil
+			attemptExecs[k].Store(e)
+			return 40 + int(k), nil // the result names the attempt that produced it
 		})
 		var later sync.WaitGroup
 		for k := 0; k < 3; k++ {
@@ -1388,9 +1389,12 @@ func stressShared(seed int64, scale int) int {
 		}
 		later.Wait()
 		hpEx.Get(func() (int, error) { return 1, nil })
-		w, _ := winner.Load().(failsafe.Execution[int])
+		var w failsafe.Execution[int]
+		if val == 42 || val == 43 {
+			w, _ = attemptExecs[val-40].Load().(failsafe.Execution[int])
+		}
 		switch {
-		case err != nil || val != 42 || w == nil:
+		case err != nil || w == nil:
 			v.add(fmt.Sprintf("hedged execution whose second attempt succeeds returned (%d, %v)", val, err))
 		case w.IsCanceled():
 			v.add("a later execution through the shared hedge policy cancelled the context of an earlier execution's winning attempt")
